@@ -121,6 +121,9 @@ def _safe_setattr(obj, name, value):
 
 
 SAFE_BUILTINS = {
+    # (for `isinstance(x, Exception)` tests on stand-ins, which are no exceptions)
+    "Exception": Exception,
+    "BaseException": BaseException,
     "setattr": _safe_setattr,
     "NotImplemented": NotImplemented,
     "Ellipsis": Ellipsis,
